@@ -8,10 +8,17 @@
    Thread objects are recycled: `tasks` is indexed by thread OBJECT, every handle carries an object
    id, reference counts / terminated_items / heaps / rebind are modelled (Model/Sched.v); t, a, b,
    x below are objects, i is an incarnation (task) number: gid g x = the task x is bound to.
-   Fragment: no yield_to (see notes/design/C01.md). *)
+   Two models: sched_run (Model/Sched.v) is the fragment WITHOUT yield_to — an act `YieldTo u` is
+   executed there as a plain yield (the hint is ignored); sched_runY (Model/SchedY.v) adds the
+   hand-over through next_thrd (the target's queue entry stays behind: duplicate handles).
+   C01_sched_yield_to_fragment: on programs without YieldTo the two coincide, so every theorem
+   stated for sched_run below holds of sched_runY for such programs.  For ALL programs of the
+   extended model: C01_sched_yield_to_handles / _no_drop / C01_sched_cas_failure_absorbs_duplicate;
+   single runner and entered-once are FALSE there (C01_sched_single_runner_yield_to_refuted). *)
 From Coq Require Import List NArith.
-From Pika Require Import Base.Conc Gen.GenEnums Model.Sched Proofs.SchedProofs Proofs.SchedWakeProofs
-  Proofs.SchedRecycleProofs.
+From Pika Require Import Base.Conc Gen.GenEnums Model.Sched Model.SchedY Proofs.SchedProofs Proofs.SchedWakeProofs
+  Proofs.SchedRecycleProofs Proofs.SchedDeltaProofs Proofs.SchedAbortProofs Proofs.SchedAcceptProofs
+  Proofs.SchedYProofs.
 Import ListNotations.
 
 (* at most one worker is between a successful pending->active CAS and the matching store for
@@ -62,8 +69,9 @@ Theorem C01_sched_no_drop : forall sched ext w,
 Proof. exact sched_no_drop. Qed.
 Print Assumptions C01_sched_no_drop.
 
-(* in this fragment the two "some other worker got in between" branches of the scheduling loop
-   are dead: the pending->active CAS and the store never fail *)
+(* in the fragment without yield_to (sched_run) the two "some other worker got in between"
+   branches of the scheduling loop are dead: the pending->active CAS and the store never fail.
+   With yield_to this is false: C01_sched_cas_fails_with_yield_to *)
 Theorem C01_sched_cas_never_fails : forall sched ext a,
   let c := sched_run sched ext in
   (forall t w0, snd c a = WLoaded t w0 -> tw_of (fst c) t = w0 /\ st w0 = st_pending) /\
@@ -132,7 +140,132 @@ Theorem C01_sched_waker_in_flight_stale_refuted :
 Proof. exact waker_in_flight_stale_refuted. Qed.
 Print Assumptions C01_sched_waker_in_flight_stale_refuted.
 
+(* acceptor completeness: for every schedule and every incarnation i, the extracted acceptor
+   `accepts` (the function the harness compares the real runtime's per-incarnation chains against)
+   accepts the chain of state-word transitions that the model's own log contains for i —
+   chain_of i (log g) is exactly the projection the harness builds from hooks 101..104 — and the
+   number of pending->active transitions of that chain equals the number of body entries of i in
+   the log (`acts=` of the harness line).  So the acceptor never rejects a behaviour of the
+   proved model: no false alarm can come from the acceptor itself. *)
+Theorem C01_accepts_complete : forall sched ext i,
+  let g := fst (sched_run sched ext) in
+  accepts (chain_of i (log g)) = true /\
+  activations (chain_of i (log g)) = enters_of i (log g).
+Proof. exact accepts_complete. Qed.
+Print Assumptions C01_accepts_complete.
+
+(* and the accepted chain is the whole history of the word: it ends at the current word of the
+   object the incarnation is bound to; an incarnation not yet created has the empty chain *)
+Theorem C01_chain_exact : forall sched ext,
+  let g := fst (sched_run sched ext) in
+  (forall x, x < ntasks g -> chain_end w_init (chain_of (gid g x) (log g)) = tw_of g x) /\
+  (forall i, ninc g <= i -> chain_of i (log g) = []).
+Proof. exact chain_exact. Qed.
+Print Assumptions C01_chain_exact.
+
+(* ------------------------------------------------------------------ yield_to (Model/SchedY.v) *)
+(* conservativity: on programs without YieldTo (nyt_ext: no YieldTo in any external program, at
+   any nesting depth of Spawn) the extended model makes exactly the runs of the fragment model *)
+Theorem C01_sched_yield_to_fragment : forall sched ext,
+  nyt_ext ext ->
+  fst (sched_runY sched ext) = fst (sched_run sched ext) /\
+  forall a, snd (sched_runY sched ext) a = Base (snd (sched_run sched ext) a).
+Proof. exact yield_to_fragment. Qed.
+Print Assumptions C01_sched_yield_to_fragment.
+
+(* the weakened handle invariant, for ALL programs of the extended model: a pending /
+   pending_boost / active task has AT LEAST ONE current handle — a queue entry, or a thread whose
+   handle the code will not drop while the word stays what it is (choldsY: a worker that has
+   already loaded a word with which its CAS must fail, or that is on a drop branch, does not
+   count); a pending_boost task is held by the worker that stored that state and is about to
+   call set_state(pending); there is no state besides the five.  Duplicates exist (yield_to leaves
+   the target's queue entry behind); uniqueness of handles is gone. *)
+Theorem C01_sched_yield_to_handles : forall sched ext t,
+  let c := sched_runY sched ext in
+  t < ntasks (fst c) ->
+  (live_st (st (tw_of (fst c) t)) ->
+     In t (pend (fst c)) \/ exists a, choldsY (tw_of (fst c) t) (snd c a) t) /\
+  (st (tw_of (fst c) t) = st_pending_boost -> exists a, boostsY (snd c a) t) /\
+  (live_st (st (tw_of (fst c) t)) \/ st (tw_of (fst c) t) = st_suspended \/ st (tw_of (fst c) t) = st_terminated).
+Proof. exact yield_to_handles. Qed.
+Print Assumptions C01_sched_yield_to_handles.
+
+(* nothing is dropped, with yield_to, for all programs: when nothing can move any more (and the
+   pool has a worker) the queues and the staged list are empty and every task is suspended or
+   terminated *)
+Theorem C01_sched_yield_to_no_drop : forall sched ext w,
+  ext w = None ->
+  let c := sched_runY sched ext in
+  stuckY c ->
+  pend (fst c) = [] /\ staged (fst c) = [] /\
+  forall t, t < ntasks (fst c) ->
+    st (tw_of (fst c) t) = st_suspended \/ st (tw_of (fst c) t) = st_terminated.
+Proof. exact yield_to_no_drop. Qed.
+Print Assumptions C01_sched_yield_to_no_drop.
+
+(* the failure branches absorb duplicates: a handle that a worker drops without running the task —
+   its pending->active CAS must fail (the word moved on since it was loaded), the word it loaded is
+   neither pending nor active (leftover branch), or its store must fail — is never the last
+   current handle of a live task; the step changes nothing but the worker's pc *)
+Theorem C01_sched_cas_failure_absorbs_duplicate : forall sched ext a t,
+  let c := sched_runY sched ext in
+  let g := fst c in
+  t < ntasks g -> live_st (st (tw_of g t)) ->
+  (forall w0, snd c a = Base (WLoaded t w0) ->
+     (st w0 = st_pending -> tw_of g t <> w0) -> st w0 <> st_active ->
+     (forall o, tstepY o a g (snd c a) = (g, Base (WRelease t))) /\
+     (In t (pend g) \/ exists b, b <> a /\ choldsY (tw_of g t) (snd c b) t)) /\
+  (forall orig ret cur, snd c a = Base (WStoreC t orig ret cur) -> tw_of g t <> orig ->
+     (forall o, tstepY o a g (snd c a) = (g, Base (WRelease t))) /\
+     (In t (pend g) \/ exists b, b <> a /\ choldsY (tw_of g t) (snd c b) t)) /\
+  (forall orig cur nx, snd c a = WStoreCY t orig cur nx -> tw_of g t <> orig ->
+     (forall o, tstepY o a g (snd c a) = (g, WReleaseY t nx)) /\
+     (In t (pend g) \/ exists b, b <> a /\ choldsY (tw_of g t) (snd c b) t)).
+Proof. exact cas_failure_absorbs_duplicate. Qed.
+Print Assumptions C01_sched_cas_failure_absorbs_duplicate.
+
+(* C01_sched_cas_never_fails is false with yield_to: worker 1 holds T in next_thrd and has
+   loaded (pending,0); worker 2 popped T's queue entry and won the CAS *)
+Theorem C01_sched_cas_fails_with_yield_to :
+  exists sched ext a t w0,
+    let c := sched_runY sched ext in
+    snd c a = Base (WLoaded t w0) /\ st w0 = st_pending /\ tw_of (fst c) t <> w0 /\
+    (exists b, b <> a /\ runningY (snd c b) t).
+Proof. exact cas_fails_with_yield_to. Qed.
+Print Assumptions C01_sched_cas_fails_with_yield_to.
+
+(* single runner and entered once are FALSE of the extended model (hence of the code as read):
+   yield_to (duplicate handle) + a pending_boost yield + a concurrent set_thread_state(pending).
+   The worker that stored pending_boost calls set_state(pending), a blind load / CAS loop; between
+   its store and that call a waker turns pending_boost into pending and the holder of the
+   duplicate wins the tagged CAS and runs the task; set_state(pending) then overwrites `active`
+   with `pending`, the task is pushed, a third worker wins the CAS again: two workers inside one
+   body (phase events Enter 1, Enter 2 with no Exit between).  See notes/design/C01.md. *)
+Theorem C01_sched_single_runner_yield_to_refuted :
+  exists sched ext a b t,
+    let c := sched_runY sched ext in
+    runningY (snd c a) t /\ runningY (snd c b) t /\ a <> b /\
+    phases_of (gid (fst c) t) (rev (log (fst c))) = [PEnter 0; PExit 0; PEnter 1; PEnter 2].
+Proof. exact single_runner_yield_to_refuted. Qed.
+Print Assumptions C01_sched_single_runner_yield_to_refuted.
+
 (* ------------------------------------------------------------------ non-vacuity *)
+(* the duplicate is absorbed and everything still runs exactly once: continuation of the witness
+   of C01_sched_cas_fails_with_yield_to to a stuck configuration *)
+Example C01_example_yield_to :
+  let c := sched_runY (cf_sched1 ++ cf_sched2) cf_ext in
+  stuckY c /\
+  map (fun t => st (tw_of (fst c) t)) [0; 1] = [st_terminated; st_terminated] /\
+  phases_of 0 (rev (log (fst c))) = [PEnter 0; PExit 0] /\
+  phases_of 1 (rev (log (fst c))) = [PEnter 0; PExit 0; PEnter 1; PExit 1] /\
+  rc (fst c) 0 = 0 /\ rc (fst c) 1 = 0 /\ heap (fst c) = [0; 1].
+Proof.
+  split; [|vm_compute; repeat split].
+  rewrite (surjective_pairing (sched_runY (cf_sched1 ++ cf_sched2) cf_ext)).
+  apply stuckY_intro; [vm_compute; reflexivity | vm_compute; reflexivity | vm_compute; reflexivity |].
+  intros a. destruct a as [|[|[|a]]]; vm_compute; auto.
+Qed.
+
 (* one external submitter (thread 0), workers 1 and 2; the root task yields once, spawns a staged
    child that suspends itself after registering, and a run-now child that yields with
    pending_boost; round-robin schedule *)
